@@ -260,6 +260,22 @@ def m1_family(level):
                 cons = [row(e, cmp_, rhs_e)] + extra
                 out.append({'fam': 'M1c', 'profile': pname, 'model': mk_model('min', ['+', var('x'), var('y')] if 'x' in str(e) or True else var('x'), cons, doms)})
             i += 1
+    # sign-known operands: every expression with an abs / min / max in it under EVERY profile in which the sign of
+    # the operand is decided by the domains (the compiler takes shortcuts there), with every comparison; the rotating
+    # profile above meets such a combination only by coincidence of indexes
+    sign_profiles = [pr for pr in PROFILES if pr[0] in ('negative', 'neg-int', 'signed')] + [('positive', D('Real', 0, 3), D('Real', 1, 4), [])]
+    j = 0
+    for e in nums:
+        se = str(e)
+        if "'abs'" not in se:
+            continue
+        for pname, dx, dy, extra in sign_profiles:
+            for ci, cmp_ in enumerate(('<=', '>=', '=')):
+                j += 1
+                if level == 0 and j % 2:
+                    continue
+                doms = {'x': dx, 'y': dy, 'p': D('Boolean'), 'q': D('Boolean')}
+                out.append({'fam': 'M1s', 'profile': pname, 'model': mk_model('min' if j % 4 < 2 else 'max', ['+', var('x'), var('y')], [row(e, cmp_, num(ks[(j // 2) % len(ks)]))] + extra, doms)})
     # logic trees as bare assertions and under comparisons with 0/1
     for j, e in enumerate(logs):
         doms = {'x': PROFILES[0][1], 'y': PROFILES[0][2], 'p': D('Boolean'), 'q': D('Boolean')}
